@@ -149,43 +149,49 @@ func (l *c24Log) handler(c *webrtc.ICECandidate) {
 
 func (l *c24Log) setCur(t int) { l.mu.Lock(); l.cur = t; l.mu.Unlock() }
 
-// c24Oracle restates the property on the handler sequence of a finished run:
-// every gathered candidate exactly once, then nil exactly once, nothing after.
-// started[j] / agentDoneAt: step indices used to name the cause.
-func c24Oracle(seq, by []int, n int, flushed bool, flushStart map[int]int, agentDone int) Verdict {
-	count := map[int]int{}
-	nils, firstNil := 0, -1
-	for i, x := range seq {
-		count[x]++
-		if x == 0 {
-			nils++
-			if firstNil < 0 {
-				firstNil = i
-			}
-		}
-	}
+// c24Oracle restates the property on the handler sequence of a finished run,
+// per gathering cycle: every candidate of the cycle exactly once, then the
+// cycle's nil exactly once, no candidate of the cycle after it.
+// cycleOf maps a candidate id to its gathering cycle (0, 1, ...); counts[k] is
+// the number of candidates cycle k gathered; pooledRestart: an ICE restart
+// happened while the pool had not been flushed yet.
+func c24Oracle(seq, by []int, cycleOf map[int]int, counts []int, flushed bool,
+	flushStart map[int]int, agentDone int, pooledRestart bool) Verdict {
 	if !flushed { // pool never flushed: nothing may have been reported
 		if len(seq) != 0 {
 			return Fail("reported-before-setlocaldescription", fmt.Sprintf("handler sequence %v with the pool never flushed", seq))
 		}
 		return Pass("", false)
 	}
-	for c := 1; c <= len(count); c++ {
-		if c != 0 && count[c] > 1 {
-			return Fail("candidate-reported-twice", fmt.Sprintf("handler sequence %v", seq))
+	count := map[int]int{}
+	var nilPos []int
+	for i, x := range seq {
+		if x == 0 {
+			nilPos = append(nilPos, i)
+		} else {
+			count[x]++
 		}
 	}
-	distinct := len(count)
-	if nils > 0 {
-		distinct--
+	seen := make([]int, len(counts))
+	for c, n := range count {
+		if n > 1 {
+			return Fail("candidate-reported-twice", fmt.Sprintf("handler sequence %v", seq))
+		}
+		k, ok := cycleOf[c]
+		if !ok || k >= len(counts) {
+			return Fail("unknown-candidate-reported", fmt.Sprintf("candidate %d in handler sequence %v belongs to no gathering cycle", c, seq))
+		}
+		seen[k]++
 	}
-	if distinct != n {
-		return Fail("candidate-never-reported", fmt.Sprintf("%d of %d candidates in handler sequence %v", distinct, n, seq))
+	for k := range counts {
+		if seen[k] != counts[k] {
+			return Fail("candidate-never-reported", fmt.Sprintf("cycle %d: %d of %d candidates in handler sequence %v", k, seen[k], counts[k], seq))
+		}
 	}
-	if nils == 0 {
+	if len(nilPos) == 0 {
 		return Fail("end-of-candidates-never-reported", fmt.Sprintf("handler sequence %v", seq))
 	}
-	if nils > 1 {
+	if len(nilPos) > len(counts) {
 		// cause: a flush emitted a nil although another nil was (being) emitted
 		for i := len(seq) - 1; i >= 0; i-- {
 			if seq[i] == 0 && by[i] > 0 {
@@ -198,9 +204,23 @@ func c24Oracle(seq, by []int, n int, flushed bool, flushStart map[int]int, agent
 		return Fail("second-end-of-candidates-flush-raced-completion",
 			fmt.Sprintf("handler sequence %v: the nil callback and a concurrent flush both reported nil", seq))
 	}
-	if firstNil != len(seq)-1 {
-		return Fail("candidate-reported-after-end-of-candidates",
-			fmt.Sprintf("handler sequence %v: a flush still held pooled candidates when the nil callback reported the end", seq))
+	if len(nilPos) < len(counts) {
+		if pooledRestart {
+			return Fail("end-of-candidates-merged-after-pooled-restart",
+				fmt.Sprintf("handler sequence %v: %d gathering cycles completed, %d end markers", seq, len(counts), len(nilPos)))
+		}
+		return Fail("end-of-candidates-missing-for-a-cycle",
+			fmt.Sprintf("handler sequence %v: %d gathering cycles completed, %d end markers", seq, len(counts), len(nilPos)))
+	}
+	// the k-th nil ends cycle k: none of the cycle's candidates after it
+	for i, x := range seq {
+		if x == 0 {
+			continue
+		}
+		if k := cycleOf[x]; i > nilPos[k] {
+			return Fail("candidate-reported-after-end-of-candidates",
+				fmt.Sprintf("handler sequence %v: candidate %d of cycle %d after the cycle's end marker", seq, x, k))
+		}
 	}
 	return Pass("", true)
 }
@@ -208,10 +228,24 @@ func c24Oracle(seq, by []int, n int, flushed bool, flushStart map[int]int, agent
 // ---------- suite "sched": a real ICEGatherer and agent under schedule control ----------
 
 type c24SchedIn struct {
-	Pool   int   `json:"pool"`   // ICECandidatePoolSize 0 / 1
-	N      int   `json:"n"`      // host candidates the agent gathers
-	NFlush int   `json:"nflush"` // flushCandidates calls (SetLocalDescription)
-	Sched  []int `json:"sched"`  // 0 agent callback goroutine, j+1 the j-th flush
+	Pool     int   `json:"pool"`     // ICECandidatePoolSize 0 / 1
+	N        int   `json:"n"`        // host candidates the agent gathers per cycle
+	NFlush   int   `json:"nflush"`   // flushCandidates calls (SetLocalDescription)
+	NRestart int   `json:"nrestart"` // 0 / 1 ICE restart (a second gathering cycle)
+	Sched    []int `json:"sched"`    // 0 agent callback goroutine, j+1 the j-th flush, 100 the restart
+}
+
+// ids of the candidates the gatherer currently knows (the current gathering cycle)
+func c24CycleIDs(g *webrtc.ICEGatherer, log *c24Log) []string {
+	cs, err := g.GetLocalCandidates()
+	if err != nil {
+		return nil
+	}
+	out := make([]string, len(cs))
+	for i := range cs {
+		out[i] = cs[i].String()
+	}
+	return out
 }
 
 func c24SchedRun(in c24SchedIn) (V, Verdict) {
@@ -223,6 +257,7 @@ func c24SchedRun(in c24SchedIn) (V, Verdict) {
 	if err != nil {
 		panic(err)
 	}
+	ice := api.NewICETransport(g)
 	log := newC24Log()
 	g.OnLocalCandidate(log.handler)
 
@@ -231,6 +266,8 @@ func c24SchedRun(in c24SchedIn) (V, Verdict) {
 	for j := 0; j < in.NFlush; j++ {
 		s.Add(fmt.Sprintf("flush%d", j), func() { g.VerifFlushCandidates() })
 	}
+	var restartErr error
+	tRestart := s.Add("restart", func() { restartErr = ice.VerifRestart() })
 	closed := false
 	finish := func() {
 		if !closed {
@@ -250,11 +287,11 @@ func c24SchedRun(in c24SchedIn) (V, Verdict) {
 	if !waitParked(s, agent, 10*time.Second) {
 		return VS("agent-never-called-back"), Fail("agent-never-called-back", "no candidate callback within 10 s")
 	}
-	entered := 1
+	entered, expected := 1, in.N+1
 
 	var sched []int
 	for _, t := range in.Sched {
-		if t >= 0 && t <= in.NFlush {
+		if (t >= 0 && t <= in.NFlush) || (t == 100 && in.NRestart > 0) {
 			sched = append(sched, t)
 		}
 	}
@@ -262,7 +299,16 @@ func c24SchedRun(in c24SchedIn) (V, Verdict) {
 		sched = append(sched, 0)
 	}
 	for j := 1; j <= in.NFlush; j++ {
-		for i := 0; i < in.N+4; i++ {
+		for i := 0; i < 2*in.N+4; i++ {
+			sched = append(sched, j)
+		}
+	}
+	if in.NRestart > 0 {
+		sched = append(sched, 100)
+		for i := 0; i < 3*in.N+3; i++ {
+			sched = append(sched, 0)
+		}
+		for j := 1; j <= in.NFlush; j++ {
 			sched = append(sched, j)
 		}
 	}
@@ -272,7 +318,51 @@ func c24SchedRun(in c24SchedIn) (V, Verdict) {
 	flushStart := map[int]int{}
 	agentDone := -1
 	conflict := false // a flush and the agent were both mid-way at some point
+	restarted, pooledRestart := false, false
+	flushesDone := 0
+	cycleStrings := [][]string{nil, nil}
+	waitAgentGathered := func() bool {
+		deadline := time.Now().Add(10 * time.Second)
+		for !g.VerifAgentGatheringComplete() && time.Now().Before(deadline) {
+			time.Sleep(100 * time.Microsecond)
+		}
+		return g.VerifAgentGatheringComplete()
+	}
 	for step, t := range sched {
+		if t == 100 {
+			if restarted {
+				continue
+			}
+			// the model's cycles all complete: restart only once the agent has gathered everything
+			if !waitAgentGathered() {
+				if verdict.OK {
+					verdict = Fail("agent-gathering-did-not-complete", "before the restart")
+				}
+				continue
+			}
+			cycleStrings[0] = c24CycleIDs(g, log)
+			// nothing flushed yet, or a flush is still reporting what it took from the pool
+			pooledRestart = in.Pool > 0 && (len(flushStart) == 0 || len(flushStart) > flushesDone)
+			idle := s.Status(agent) == "finished" // no callback under way: the new cycle's first one is due
+			st := stepPatient(s, tRestart, 10*time.Second)
+			if st != "finished" || restartErr != nil {
+				if verdict.OK {
+					verdict = Fail("restart-failed", fmt.Sprintf("status %s err %v", st, restartErr))
+				}
+				continue
+			}
+			restarted = true
+			flags.SetBit(flags, step, 1)
+			expected += in.N + 1
+			agentDone = -1
+			if idle {
+				if !waitParked(s, agent, 10*time.Second) && verdict.OK {
+					verdict = Fail("agent-stopped-calling-back", "after the restart")
+				}
+				entered++
+			}
+			continue
+		}
 		log.setCur(t)
 		st := stepPatient(s, t, 5*time.Second)
 		log.setCur(-1)
@@ -285,12 +375,12 @@ func c24SchedRun(in c24SchedIn) (V, Verdict) {
 		flags.SetBit(flags, step, 1)
 		if t == 0 {
 			switch {
-			case st == "finished" && entered < in.N+1: // a callback returned, the next is due
+			case st == "finished" && entered < expected: // a callback returned, the next is due
 				if !waitParked(s, agent, 10*time.Second) && verdict.OK {
-					verdict = Fail("agent-stopped-calling-back", fmt.Sprintf("%d of %d callbacks", entered, in.N+1))
+					verdict = Fail("agent-stopped-calling-back", fmt.Sprintf("%d of %d callbacks", entered, expected))
 				}
 				entered++
-			case st == "finished": // the nil callback returned
+			case st == "finished": // the last queued callback returned
 				agentDone = step
 			case st == "parked:gather.cb.enter": // returned and already in the next callback
 				entered++
@@ -302,19 +392,39 @@ func c24SchedRun(in c24SchedIn) (V, Verdict) {
 					conflict = true
 				}
 			}
+			if st == "finished" {
+				flushesDone++
+			}
 		}
+	}
+	if restarted {
+		cycleStrings[1] = c24CycleIDs(g, log)
+	} else {
+		cycleStrings[0] = c24CycleIDs(g, log)
 	}
 	finish()
 	log.mu.Lock()
 	seq := append([]int{}, log.seq...)
 	by := append([]int{}, log.by...)
+	cycleOf := map[int]int{}
+	for k, names := range cycleStrings {
+		for _, name := range names {
+			if id, ok := log.names[name]; ok {
+				cycleOf[id] = k
+			}
+		}
+	}
 	log.mu.Unlock()
 	if verdict.OK {
 		flushed := in.Pool == 0 || in.NFlush > 0
-		verdict = c24Oracle(seq, by, in.N, flushed, flushStart, agentDone)
+		counts := []int{in.N}
+		if restarted {
+			counts = append(counts, in.N)
+		}
+		verdict = c24Oracle(seq, by, cycleOf, counts, flushed, flushStart, agentDone, pooledRestart)
 		if verdict.OK {
 			verdict.NonTrivial = conflict && in.N > 0
-			verdict.Class = fmt.Sprintf("pool%d/n%d/flush%d/conflict=%v", in.Pool, in.N, in.NFlush, conflict)
+			verdict.Class = fmt.Sprintf("pool%d/n%d/flush%d/restart%d/conflict=%v", in.Pool, in.N, in.NFlush, in.NRestart, conflict)
 		}
 	}
 	return VL{c24BigZ(flags.String()), VInts(seq)}, verdict
@@ -332,15 +442,16 @@ func c24SchedCoq(in c24SchedIn) string {
 	for i, x := range in.Sched {
 		ss[i] = CoqZ(int64(x))
 	}
-	return fmt.Sprintf("(%d, %d, %d, %s)", in.Pool, in.N, in.NFlush, CoqList(ss))
+	return fmt.Sprintf("(%d, %d, %d, %d, %s)", in.Pool, in.N, in.NFlush, in.NRestart, CoqList(ss))
 }
 
 // ---------- suite "real": a real PeerConnection, natural schedule ----------
 
 type c24RealIn struct {
-	Pool  int `json:"pool"`
-	N     int `json:"n"`
-	Extra int `json:"extra"` // SetLocalDescription calls after gathering completed
+	Pool    int `json:"pool"`
+	N       int `json:"n"`
+	Extra   int `json:"extra"`   // SetLocalDescription calls after gathering completed
+	Restart int `json:"restart"` // 0 none; 1 ICE restart after the negotiations; 2 (pool 1) before the first SetLocalDescription
 }
 
 func c24RealRun(in c24RealIn) (V, Verdict) {
@@ -376,8 +487,8 @@ func c24RealRun(in c24RealIn) (V, Verdict) {
 			panic(err)
 		}
 	}
-	setLocal := func() webrtc.SessionDescription {
-		offer, err := pc.CreateOffer(nil)
+	setLocal := func(opts *webrtc.OfferOptions) webrtc.SessionDescription {
+		offer, err := pc.CreateOffer(opts)
 		must(err)
 		must(pc.SetLocalDescription(offer))
 		return offer
@@ -389,31 +500,90 @@ func c24RealRun(in c24RealIn) (V, Verdict) {
 		must(other.SetLocalDescription(ans))
 		must(pc.SetRemoteDescription(ans))
 	}
+	nilsSeen := func() int {
+		log.mu.Lock()
+		defer log.mu.Unlock()
+		n := 0
+		for _, x := range log.seq {
+			if x == 0 {
+				n++
+			}
+		}
+		return n
+	}
+	waitNils := func(n int) { // the handler may still be running on the agent's goroutine
+		deadline := time.Now().Add(5 * time.Second)
+		for nilsSeen() < n && time.Now().Before(deadline) {
+			time.Sleep(200 * time.Microsecond)
+		}
+	}
+	cycleStrings := [][]string{nil, nil}
+	localIDs := func() []string {
+		cs, err := pc.VerifGatherer().GetLocalCandidates()
+		if err != nil {
+			return nil
+		}
+		out := make([]string, len(cs))
+		for i := range cs {
+			out[i] = cs[i].String()
+		}
+		return out
+	}
 	if in.Pool > 0 && !waitComplete() { // pool: gathering started in NewPeerConnection
 		return VS("gathering-stuck"), Fail("gathering-did-not-complete", "pool size 1, before SetLocalDescription")
 	}
-	offer := setLocal()
-	if !waitComplete() {
-		return VS("gathering-stuck"), Fail("gathering-did-not-complete", "after SetLocalDescription")
-	}
-	// the handler may still be running on the agent's goroutine: wait for the nil
-	deadline := time.Now().Add(5 * time.Second)
-	for time.Now().Before(deadline) {
-		log.mu.Lock()
-		done := len(log.seq) > 0 && log.seq[len(log.seq)-1] == 0
-		log.mu.Unlock()
-		if done {
-			break
+	pooledRestart := false
+	var offer webrtc.SessionDescription
+	if in.Restart == 2 {
+		// ICE restart as the very first offer: the first cycle is still pooled
+		cycleStrings[0] = localIDs()
+		pooledRestart = true
+		off, err := pc.CreateOffer(&webrtc.OfferOptions{ICERestart: true})
+		must(err)
+		time.Sleep(time.Millisecond)
+		if !waitComplete() {
+			return VS("gathering-stuck"), Fail("gathering-did-not-complete", "after the pooled restart")
 		}
-		time.Sleep(200 * time.Microsecond)
+		time.Sleep(2 * time.Millisecond) // the second cycle's nil callback (it is kept back) has to return
+		must(pc.SetLocalDescription(off))
+		offer = off
+		waitNils(1)
+		cycleStrings[1] = localIDs()
+	} else {
+		offer = setLocal(nil)
+		if !waitComplete() {
+			return VS("gathering-stuck"), Fail("gathering-did-not-complete", "after SetLocalDescription")
+		}
+		waitNils(1)
 	}
 	for i := 0; i < in.Extra; i++ {
 		answer(offer)
-		offer = setLocal()
+		offer = setLocal(nil)
+	}
+	if in.Restart == 1 {
+		answer(offer)
+		cycleStrings[0] = localIDs()
+		offer = setLocal(&webrtc.OfferOptions{ICERestart: true})
+		if !waitComplete() {
+			return VS("gathering-stuck"), Fail("gathering-did-not-complete", "after the ICE restart")
+		}
+		waitNils(2)
+		cycleStrings[1] = localIDs()
+	}
+	if in.Restart == 0 {
+		cycleStrings[0] = localIDs()
 	}
 	time.Sleep(2 * time.Millisecond)
 	log.mu.Lock()
 	seq := append([]int{}, log.seq...)
+	cycleOf := map[int]int{}
+	for k, names := range cycleStrings {
+		for _, name := range names {
+			if id, ok := log.names[name]; ok {
+				cycleOf[id] = k
+			}
+		}
+	}
 	log.mu.Unlock()
 	by := make([]int, len(seq))
 	nils := 0
@@ -425,10 +595,14 @@ func c24RealRun(in c24RealIn) (V, Verdict) {
 			}
 		}
 	}
-	verdict := c24Oracle(seq, by, in.N, true, map[int]int{1: 1}, 0)
+	counts := []int{in.N}
+	if in.Restart > 0 {
+		counts = append(counts, in.N)
+	}
+	verdict := c24Oracle(seq, by, cycleOf, counts, true, map[int]int{1: 1}, 0, pooledRestart)
 	if verdict.OK {
-		verdict.NonTrivial = in.Extra > 0
-		verdict.Class = fmt.Sprintf("pool%d/n%d/extra%d", in.Pool, in.N, in.Extra)
+		verdict.NonTrivial = in.Extra > 0 || in.Restart > 0
+		verdict.Class = fmt.Sprintf("pool%d/n%d/extra%d/restart%d", in.Pool, in.N, in.Extra, in.Restart)
 	}
 	return VInts(seq), verdict
 }
@@ -461,7 +635,7 @@ func init() {
 	}
 	Register(Spec[c24SchedIn]{
 		ID: "C24", Suite: "sched", CoqImports: []string{"Check.C24"},
-		CoqType: "Z * Z * Z * list Z", CoqRun: coqRun,
+		CoqType: "Z * Z * Z * Z * list Z", CoqRun: coqRun,
 		Quick: 250, Thorough: 6000,
 		Corpus: func() []c24SchedIn {
 			return []c24SchedIn{
@@ -471,9 +645,14 @@ func init() {
 				// race (pool 1): nil path stores complete, is parked before the pool lock;
 				// the flush empties the pool and reads complete; both report nil
 				{Pool: 1, N: 2, NFlush: 1, Sched: []int{0, 0, 0, 1, 1, 1, 1, 1, 0, 0}},
-				// race: the flush takes the pool, the nil callback reports the end,
-				// then the flush reports the pooled candidates
+				// race: the flush takes the pool, the nil callback finds the pool gone,
+				// then the flush reports the pooled candidates (before the flushing repair: nil first)
 				{Pool: 1, N: 1, NFlush: 1, Sched: []int{0, 1, 0, 0, 0, 1, 1}},
+				// ICE restart after the pool was flushed: a second cycle, its own nil
+				{Pool: 1, N: 1, NFlush: 2, NRestart: 1, Sched: []int{0, 0, 0, 1, 1, 1, 100, 0, 0, 2, 0, 0, 0}},
+				{Pool: 0, N: 2, NFlush: 1, NRestart: 1, Sched: []int{0, 0, 0, 0, 100, 0, 0, 1, 0, 0, 0, 0, 0}},
+				// ICE restart while the first cycle is still pooled: one nil for two cycles
+				{Pool: 1, N: 1, NFlush: 1, NRestart: 1, Sched: []int{0, 0, 0, 100, 0, 0, 0, 1, 1, 1, 1}},
 			}
 		},
 		Exhaustive: func() []c24SchedIn {
@@ -484,8 +663,36 @@ func init() {
 						continue
 					}
 					for p := 0; p <= 3*n+3; p++ {
-						out = append(out, c24SchedIn{pool, n, 1, place(n, 1, []int{p}, true)})
-						out = append(out, c24SchedIn{pool, n, 1, place(n, 1, []int{p}, false)})
+						out = append(out, c24SchedIn{Pool: pool, N: n, NFlush: 1, Sched: place(n, 1, []int{p}, true)})
+						out = append(out, c24SchedIn{Pool: pool, N: n, NFlush: 1, Sched: place(n, 1, []int{p}, false)})
+					}
+				}
+			}
+			// one restart: the first flush and the restart placed among the agent's steps,
+			// a second flush after the restart
+			for pool := 0; pool <= 1; pool++ {
+				for n := 0; n <= 1; n++ {
+					if !c24Supported(n) {
+						continue
+					}
+					for p := 0; p <= 3*n+3; p++ {
+						for q := 0; q <= 3*n+3; q++ {
+							var sch []int
+							for a := 0; a <= 3*n+3; a++ {
+								if a == p {
+									sch = append(sch, 1)
+								}
+								if a == q {
+									sch = append(sch, 100)
+								}
+								if a > p {
+									sch = append(sch, 1)
+								}
+								sch = append(sch, 0)
+							}
+							sch = append(sch, 2, 0, 2, 0)
+							out = append(out, c24SchedIn{Pool: pool, N: n, NFlush: 2, NRestart: 1, Sched: sch})
+						}
 					}
 				}
 			}
@@ -507,16 +714,23 @@ func init() {
 				nflush = 0
 			}
 			pool := r.Intn(2)
+			nrestart := 0
+			if r.Chance(1, 3) {
+				nrestart = 1
+			}
 			var sched []int
-			l := r.Range(0, 3*n+3+nflush*(n+3))
+			l := r.Range(0, (1+nrestart)*(3*n+3)+nflush*(n+3))
 			for j := 0; j < l; j++ {
-				if nflush == 0 || r.Chance(1, 2) {
+				switch {
+				case nrestart > 0 && r.Chance(1, 8):
+					sched = append(sched, 100)
+				case nflush == 0 || r.Chance(1, 2):
 					sched = append(sched, 0)
-				} else {
+				default:
 					sched = append(sched, r.Range(1, nflush))
 				}
 			}
-			return c24SchedIn{pool, n, nflush, sched}
+			return c24SchedIn{pool, n, nflush, nrestart, sched}
 		},
 		Shrink: func(in c24SchedIn) []c24SchedIn {
 			var out []c24SchedIn
@@ -536,15 +750,21 @@ func init() {
 	})
 	Register(Spec[c24RealIn]{
 		ID: "C24", Suite: "real", CoqImports: []string{"Check.C24"},
-		CoqType: "Z * Z * Z", CoqRun: "Check.C24.run_real",
+		CoqType: "Z * Z * Z * Z", CoqRun: "Check.C24.run_real",
 		Exhaustive: func() []c24RealIn {
 			var out []c24RealIn
 			for pool := 0; pool <= 1; pool++ {
 				for n := 0; n <= 2; n++ {
 					for extra := 0; extra <= 2; extra++ {
 						if c24Supported(n) {
-							out = append(out, c24RealIn{pool, n, extra})
+							out = append(out, c24RealIn{pool, n, extra, 0})
+							if extra <= 1 {
+								out = append(out, c24RealIn{pool, n, extra, 1})
+							}
 						}
+					}
+					if pool == 1 && c24Supported(n) {
+						out = append(out, c24RealIn{pool, n, 0, 2})
 					}
 				}
 			}
@@ -555,7 +775,7 @@ func init() {
 			if !c24Supported(in.N) {
 				return ""
 			}
-			return fmt.Sprintf("(%d, %d, %d)", in.Pool, in.N, in.Extra)
+			return fmt.Sprintf("(%d, %d, %d, %d)", in.Pool, in.N, in.Extra, in.Restart)
 		},
 		Parallel: 4,
 	})
